@@ -78,7 +78,7 @@ def asymmetric(dir, freq, dm, dpm, dspr, dpspr, fm, fp, **kwargs):
     # Gradients
     # ==========
     # Limiters to avoid negative and large numbers
-    dd = dm - dpm
+    dd = (dm - dpm + 180) % 360 - 180
     ds = np.maximum(dspr - dpspr, 0)
     df = np.maximum(fm - fp, 0.001)
     dddf = dd / df
